@@ -1,5 +1,6 @@
 import Rosmar.Driver
 import Rosmar.Shutdown
+import Rosmar.ViewDriver
 open Rosmar Rosmar.Driver
 
 /-- `sd acts=a,b,c` → the shutdown model's verdict; `sd locks=h1+h2>w;h>w` → whether those threads are deadlocked. -/
@@ -16,7 +17,7 @@ def shutdownLine (l : Line) : String :=
     s!"r=ok deadlock={Rosmar.Shutdown.deadlockedB ts}"
 
 inductive Mode where
-  | kv (s : State)
+  | kv (s : State) (dd : List Rosmar.View.DDoc)
   | reg (r : Rosmar.Registry.Reg)
   | life (l : Rosmar.FeedLife.Life)
 
@@ -32,10 +33,10 @@ partial def loop (h : IO.FS.Stream) (out : IO.FS.Stream) (m : Mode) : IO Unit :=
       out.putStrLn "begin"
       if l.str "kind" = "reg" then loop h out (.reg {})
       else if l.str "kind" = "life" then loop h out (.life { onDisk := l.flag "disk", openHandles := ["h0"] })
-      else loop h out (.kv initState)
+      else loop h out (.kv initState [])
     else if l.op = "end" then
       out.putStrLn "end"
-      loop h out (.kv initState)
+      loop h out (.kv initState [])
     else if l.op = "sd" then
       out.putStrLn (shutdownLine l)
       loop h out m
@@ -49,7 +50,12 @@ partial def loop (h : IO.FS.Stream) (out : IO.FS.Stream) (m : Mode) : IO Unit :=
         let (r', s) := regLine r l
         out.putStrLn s
         loop h out (.reg r')
-      | .kv s =>
+      | .kv s dd =>
+        match Rosmar.View.viewLine { s := s, ddocs := dd } l with
+        | some (vs', str) =>
+          out.putStrLn str
+          loop h out (.kv vs'.s vs'.ddocs)
+        | none =>
         if l.op = "query" then
           let rows := opQuery s l.p0 (l.nat "q")
           out.putStrLn (s!"r=ok n={rows.length} again=false rows=" ++ ";".intercalate rows)
@@ -62,9 +68,10 @@ partial def loop (h : IO.FS.Stream) (out : IO.FS.Stream) (m : Mode) : IO Unit :=
         | some op =>
           let (s', resp) := step s op
           out.putStrLn (fmtResp l resp)
-          loop h out (.kv s')
+          let vs' := if dd.isEmpty then { s := s', ddocs := dd } else (Rosmar.View.VState.gc { s := s', ddocs := dd })
+          loop h out (.kv vs'.s vs'.ddocs)
 
 def main : IO Unit := do
   let stdin ← IO.getStdin
   let stdout ← IO.getStdout
-  loop stdin stdout (.kv initState)
+  loop stdin stdout (.kv initState [])
